@@ -568,3 +568,7 @@ mod tests {
         assert_eq!(rsp.message(), err_msg);
     }
 }
+
+#[cfg(all(test, feature = "verif-grpc"))]
+#[path = "/verif/harness/sequencer/grpc.rs"]
+mod verif;
